@@ -49,6 +49,11 @@ def op_job(job):
             log_.append(('e2fsck -fyD (requested by tune2fs)', rc2))
     data = open(p, 'rb').read()
     v = xcheck(data, want=('K',))
+    if not v and label.startswith('inode layout'):
+        # verifier direction: what the format defines (and xck confirmed) must also be accepted by e2fsck's and libext2fs's checksum verification
+        rc, out = run([E2FSCK, '-fn', p], timeout=60)
+        bad = [l for l in out.splitlines() if CSUM_ERR.search(l)]
+        if bad: v = [('K', 'verifier-rejects-format-exact', bad[0][:200])]
     vall = [] if v else xcheck(data)
     return (name, label, log_, [list(x) for x in v[:5]], [list(x) for x in vall[:5]])
 
@@ -153,12 +158,19 @@ def main(tier, only=None):
                    ('e2fsck -fyD', [[T['e2fsck'], '-fyD', '{img}']]), ('e2fsck bmap2extent', [[T['e2fsck'], '-fy', '-E', 'bmap2extent', '{img}']]),
                    ('resize grow', [[T['resize2fs'], '-f', '{img}', '5000']]), ('resize shrink', [[T['resize2fs'], '-f', '-M', '{img}']]),
                    ('journal add', [[T['tune2fs'], '-O', 'has_journal', '-J', 'size=1', '{img}']])]
+            # inode layout sweep: every legal i_extra_isize (the checksum's upper half exists from 4 on; the in-inode attribute area starts right behind it)
+            isz = Image(fsweep.base_data(name)).inode_size
+            for x in range(4, isz - 128 + 1, 4) if isz > 128 else ():
+                ops.append(('inode layout extra_isize=%d' % x, [D('sif /f12 extra_isize %d' % x), D('sif /d1 extra_isize %d' % x), D('sif /lnk_long extra_isize %d' % x)]))
             for label, cmds in ops:
                 jobs.append((name, label, cmds))
         for i, opts in enumerate((['-t', 'ext4', '-O', 'metadata_csum,64bit'], ['-t', 'ext4', '-O', 'metadata_csum,^64bit', '-g', '256'], ['-t', 'ext4', '-O', 'metadata_csum,meta_bg,^resize_inode', '-b', '2048'],
                                   ['-t', 'ext4', '-O', 'metadata_csum,bigalloc', '-C', '4096'], ['-t', 'ext4', '-O', 'metadata_csum,inline_data,quota,project', '-I', '512'],
                                   ['-t', 'ext4', '-O', 'metadata_csum,mmp,metadata_csum_seed,orphan_file'], ['-t', 'ext4', '-O', '^metadata_csum,uninit_bg', '-g', '256'])):
             jobs.append((None, 'mke2fs ' + ' '.join(opts), [[T['mke2fs'], '-q', '-F'] + opts + ['{img}', '4096']]))
+        for x in range(4, 512 - 128 + 1, 4 if not quick else 28):
+            jobs.append((None, 'inode layout I=512 extra_isize=%d' % x, [[T['mke2fs'], '-q', '-F', '-t', 'ext4', '-O', 'metadata_csum', '-I', '512', '{img}', '4096'],
+                                                                     [T['debugfs'], '-w', '-R', 'mkdir /d', '{img}'], [T['debugfs'], '-w', '-R', 'sif /d extra_isize %d' % x, '{img}'], [T['debugfs'], '-w', '-R', 'sif <2> extra_isize %d' % x, '{img}']]))
         res = pmap(op_job, jobs, chunksize=1)
         n = 0
         for name, label, lg, v, vall in res:
